@@ -8,6 +8,24 @@ type PropertyDef struct {
 
 // Properties is the registry of E2 checks.
 var Properties = map[string]PropertyDef{
+	"C04": {Cases: C04Cases, Config: func(tier string) Config {
+		c := Config{
+			Functions: []string{"gennaro.Participant.Round1/Round2/Round3 (consuming rounds under deviation)", "gennaro message Validate", "network.ValidateIncomingMessages", "pedersen.Scheme.Verify", "feldman.Scheme.Verify", "fiatshamir Verifier.Verify / zkmodule.Verify", "batch_schnorr / okamoto Verify", "base.GetMaliciousIdentities / ShouldAbort", "mpc.NewBaseShard"},
+			Bounds:  map[string]any{"deviation": "one field of one message of one sender (per-recipient for unicasts, uniform for broadcasts), offset δ symbolic with δ≠0", "faults": "unicast share secret/blinding component, Pedersen / Feldman vector entries (proof unchanged), Feldman vector re-proved by the deviator for another column, vectors truncated/extended by one entry, dropped broadcast", "structures": "threshold, CNF, non-ideal gate tree (3 parties); more in thorough"},
+			Assumes: []string{"class A faults (share components, re-proved vector): verdict for every δ≠0", "class B faults (vector entry with unchanged proof): rejected under the random-oracle idealisation (a changed hashed element changes the challenge bytes)", "fresh random draws non-zero"},
+			Outside: []string{"DKLs23/RVOLE/OT, Lindell17, BLS, CGGMP21", "echo-broadcast enforcement (C11)", "hangs", "bit flips inside encodings (C12)", "replays across parallel sessions"},
+		}
+		return c
+	}},
+	"C03": {Cases: C03Cases, Config: func(tier string) Config {
+		c := Config{
+			Functions: []string{"gennaro.NewParticipant", "gennaro.Participant.Round1/Round2/Round3", "pedersen.Scheme.DealRandomAndRevealDealerFunc/Verify", "feldman.Scheme.Verify", "okamoto.NewProtocol", "batch_schnorr.NewProtocol", "sigand.Compose", "maurer09.Protocol.*", "fiatshamir.NewCompiler/Prover.Prove/Verifier.Verify", "zkmodule.Prove/Verify", "pedersencom.ExtractCommitmentKey", "session.NewContext", "mpc.NewBaseShard/NewBasePublicMaterial", "trusteddealer.Deal", "feldman.Scheme.Reconstruct/ReconstructInTheExponent"},
+			Bounds:  map[string]any{"parties": "2–3 (quick) / up to 4 (thorough)", "structures": "threshold, unanimity, CNF, hierarchical, non-ideal gate tree", "every party's random stream": "independent symbolic variables", "compiler": "Fiat–Shamir"},
+			Assumes: []string{"random-oracle idealisation: transcript/hash outputs depend on hashed elements only through equality (interned handles); the Pedersen generator h = hash-to-group output has an unknown symbolic discrete log, h ∉ {identity, g}", "fresh random draws are non-zero", "sigand's goroutines interleave as under GOMAXPROCS=1"},
+			Outside: []string{"real curves", "Fischlin compilers", "networked runner", "store/reload (C12)", "Lindell17 key generation (Paillier)", "Canetti DKG (hash commitments over byte strings: class B)"},
+		}
+		return c
+	}},
 	"C10": {Cases: C10Cases, Config: func(tier string) Config {
 		c := Config{
 			Functions: []string{"session.NewContext", "session.Context.SubContext/Seeds/Transcript/SessionID/Clone", "przs.SampleZeroShare", "additive.NewShare", "hagrid transcript (real cSHAKE, run natively)"},
